@@ -1,8 +1,89 @@
-//! hser: serialize a text node (and an attribute) containing the given string with the real html5ever serializer
+//! hser: serialize a text node (and an attribute) containing the given string with the real html5ever serializer.
+//! `--selfcheck FILE`: every line of FILE (escapes \n \r \t \0 \\ \u{..}) is serialized as the text of a <p> element, as the value
+//! of an attribute, and as the text of a <style> element, and compared with the escaping the WHATWG serialization algorithm
+//! prescribes ("escaping a string": & -> &amp;, U+00A0 -> &nbsp;, in attribute mode " -> &quot;, otherwise < -> &lt; > -> &gt;;
+//! raw-text elements: verbatim); prints INCONSISTENT for each difference.
 use html5ever::serialize::{HtmlSerializer, SerializeOpts, Serializer, TraversalScope};
 use html5ever::{ns, namespace_url, LocalName, QualName};
+fn unescape(s: &str) -> String {
+    let mut out = String::new();
+    let cs: Vec<char> = s.chars().collect();
+    let mut i = 0;
+    while i < cs.len() {
+        if cs[i] == '\\' && i + 1 < cs.len() {
+            match cs[i + 1] {
+                'n' => { out.push('\n'); i += 2; },
+                'r' => { out.push('\r'); i += 2; },
+                't' => { out.push('\t'); i += 2; },
+                '0' => { out.push('\0'); i += 2; },
+                '\\' => { out.push('\\'); i += 2; },
+                'u' => {
+                    let j = cs[i..].iter().position(|&c| c == '}').unwrap() + i;
+                    let hex: String = cs[i + 3..j].iter().collect();
+                    out.push(char::from_u32(u32::from_str_radix(&hex, 16).unwrap()).unwrap());
+                    i = j + 1;
+                },
+                _ => { out.push(cs[i]); i += 1; },
+            }
+        } else { out.push(cs[i]); i += 1; }
+    }
+    out
+}
+/// "escaping a string" of the WHATWG serialization algorithm, written independently of the code under test
+fn oracle(s: &str, attr: bool) -> String {
+    let mut o = String::new();
+    for c in s.chars() {
+        match c {
+            '&' => o.push_str("&amp;"),
+            '\u{a0}' => o.push_str("&nbsp;"),
+            '"' if attr => o.push_str("&quot;"),
+            '<' => o.push_str("&lt;"),
+            '>' => o.push_str("&gt;"),
+            c => o.push(c),
+        }
+    }
+    o
+}
+fn ser_in(elem: &str, text: &str) -> String {
+    let mut out = Vec::new();
+    {
+        let mut ser = HtmlSerializer::new(&mut out, SerializeOpts { traversal_scope: TraversalScope::IncludeNode, ..Default::default() });
+        let name = QualName::new(None, ns!(html), LocalName::from(elem));
+        let an = QualName::new(None, ns!(), LocalName::from("t"));
+        ser.start_elem(name.clone(), vec![(&an, text)].into_iter()).unwrap();
+        ser.write_text(text).unwrap();
+        ser.end_elem(name).unwrap();
+    }
+    String::from_utf8_lossy(&out).into_owned()
+}
 fn main() {
     let args: Vec<String> = std::env::args().skip(1).collect();
+    if args.first().map(|s| s.as_str()) == Some("--selfcheck") {
+        let text = std::fs::read_to_string(&args[1]).unwrap();
+        let (mut runs, mut bad) = (0, 0);
+        for line in text.lines() {
+            let input = unescape(line);
+            runs += 1;
+            let r = std::panic::catch_unwind(|| (ser_in("p", &input), ser_in("style", &input)));
+            match r {
+                Ok((p, st)) => {
+                    let want_p = format!("<p t=\"{}\">{}</p>", oracle(&input, true), oracle(&input, false));
+                    let want_st = format!("<style t=\"{}\">{}</style>", oracle(&input, true), input);
+                    if p != want_p || st != want_st {
+                        bad += 1;
+                        if bad <= 5 {
+                            println!("INCONSISTENT kind=html_escape input={:?}", input);
+                            println!("  serialized: {:?} / {:?}", p, st);
+                            println!("  prescribed: {:?} / {:?}", want_p, want_st);
+                        }
+                    }
+                },
+                Err(_) => { bad += 1; println!("INCONSISTENT kind=panic input={:?}\n  panicked", input); },
+            }
+        }
+        if bad == 0 { println!("CONSISTENT runs={runs}"); } else { println!("inconsistent={bad} runs={runs}"); }
+        return;
+    }
     let text = &args[0];
     let mut out = Vec::new();
     {
